@@ -267,6 +267,34 @@ func buildAttacks(r *spec.Rand, n int) []attack {
 			return nil
 		}))
 	}
+	// valid packets with unusual but legal contents: topic names with a '$'-leading level (nothing
+	// forbids a client to publish there), a will on such a topic, QoS 1/2; the connection holds a
+	// subscription, so its own teardown has to change the subscription tree afterwards
+	for _, tp := range []string{"$SYS/not/for/clients", "$x", "a/$b/c", "$"} {
+		for _, q := range []byte{0, 1, 2} {
+			tp, q := tp, q
+			add("post/dollar-topic", fmt.Sprintf("PUBLISH to %q at QoS %d, then leave", tp, q), func(b *brokerProc, r *spec.Rand) map[string]interface{} {
+				c, err := b.connect(uniqueCID("atk"), connectOpts{Clean: true, KeepAlive: 600, Will: &rc.Packet{Topic: []byte(tp), QoS: q, Payload: []byte("w")}})
+				if err != nil {
+					return map[string]interface{}{"connect": err.Error()}
+				}
+				defer c.Close()
+				c.SendPacket(&rc.Packet{Type: rc.SUBSCRIBE, ID: 1, Filters: [][]byte{[]byte("atk/own/#")}, QoSs: []byte{1}})
+				pk := &rc.Packet{Type: rc.PUBLISH, QoS: q, Topic: []byte(tp), Payload: spec.MakePayload(5, 0, 40), Retain: r.Bool()}
+				if q > 0 {
+					pk.ID = 9
+				}
+				c.SendPacket(pk)
+				c.SendPacket(&rc.Packet{Type: rc.PINGREQ})
+				c.WaitFor(func(l []rawclient.Event, closed bool) bool { return closed || countType(l, rc.PINGRESP) > 0 }, 300*time.Millisecond)
+				if r.Bool() {
+					c.Send([]byte{0xf0, 0x00}) // ends abnormally: the will (on the '$' topic) is due as well
+					c.Flush()
+				}
+				return map[string]interface{}{"topic": tp, "qos": q}
+			})
+		}
+	}
 	// ---- disconnects: close at every byte offset of a packet
 	sub := rc.Encode(&rc.Packet{Type: rc.SUBSCRIBE, ID: 5, Filters: [][]byte{[]byte("atk/x/#"), []byte("atk/y")}, QoSs: []byte{1, 2}})
 	pub := rc.Encode(&rc.Packet{Type: rc.PUBLISH, QoS: 2, ID: 6, Topic: []byte("atk/x/1"), Payload: spec.MakePayload(1, 0, 40)})
